@@ -24,7 +24,8 @@ Serving == {"DISTRIBUTION", "OPERATION", "CONCILIATION"}
 \* (a pull made while another one is outstanding, or whose result arrives when j is not CHECKING any more, is ignored
 \* by the code: its ALL_INFO notification loads nothing)
 Fn(v) == [i \in I |-> [j \in I |-> [p \in P |-> v]]]
-GInit == [lost |-> Fn(FALSE), lap |-> Fn(FALSE), out |-> [i \in I |-> [j \in I |-> FALSE]]]
+\* knew[i][j][p]: when j was lost, i reported p running on j (C07: it must then report p FATAL, unless p runs again)
+GInit == [lost |-> Fn(FALSE), lap |-> Fn(FALSE), out |-> [i \in I |-> [j \in I |-> FALSE]], knew |-> Fn(FALSE)]
 
 GStep(st, pre, gg) ==
   LET \* a state change of the local Supervisor while the instance has not finished its own handshake (it holds itself
@@ -52,6 +53,18 @@ GStep(st, pre, gg) ==
                  IF unnoticed(i, j) THEN TRUE
                  ELSE IF gone(i, j) \/ (pulled(i, j) /\ ~gg.out[i][j]) THEN FALSE
                  ELSE gg.lap[i][j][p] \/ miss(i, j, p)]]],
+      knew |-> [i \in I |-> [j \in I |-> [p \in P |->
+                 IF st.a = "Crash" /\ st.n = j /\ i # j
+                 THEN /\ pre.alive[i] /\ j \in ToSet(pre.run[i][p]) /\ pre.inst[i][j] = "RUNNING"
+                      /\ pre.truth[p][j] \in {"STARTING", "RUNNING", "BACKOFF"}
+                      \* (p runs nowhere else, and i is not about to load the - then fresher - records of another instance)
+                      /\ \A x \in I \ {j} : pre.truth[p][x] \notin RunningLike \cup {"STOPPING"} /\ pre.inst[i][x] # "CHECKING"
+                 ELSE IF ~st.alive[i] \/ (st.a = "Boot" /\ (st.n = i \/ st.n = j)) THEN FALSE
+                 \* (any later activity of p anywhere, or records of p loaded from a joining instance, end the obligation:
+                 \*  the displayed state is then the one of the most recent record)
+                 ELSE /\ gg.knew[i][j][p]
+                      /\ \A x \in I \ {j} : st.truth[p][x] = pre.truth[p][x] \/ st.truth[p][x] = "NONE" \/ pre.truth[p][x] = "NONE"
+                      /\ \A x \in I : ~arrived(i, x)]]],
       out |-> [i \in I |-> [j \in I |->
                  IF unnoticed(i, j) THEN gg.out[i][j]
                  ELSE IF gone(i, j) \/ arrived(i, j) THEN FALSE ELSE gg.out[i][j] \/ pulled(i, j)]]]
@@ -93,6 +106,11 @@ Failures(st, gg) ==
        IN (IF \A w \in allwrong : explained(w) THEN {} ELSE {"C12.Truth"})
           \cup (IF \A x \in disagree : dexplained(x) THEN {} ELSE {"C12.Agreement"})
           \cup (IF allwrong # {} /\ \A w \in allwrong : explained(w) THEN {"KNOWN.F4"} ELSE {})
+          \* C07: every process the lost instance was running is reported FATAL by those who knew it ran there
+          \cup (IF \A i \in live, j \in I, p \in P :
+                     (gg.knew[i][j][p] /\ ~st.alive[j] /\ \A x \in I : ~(st.alive[x] /\ st.truth[p][x] \in RunningLike))
+                     => st.views[i][p] = "FATAL"
+                THEN {} ELSE {"C07.LostProcessFatal"})
 
 Report(tag, t, s, f) == IF f = {} THEN TRUE ELSE PrintT(tag \o ToJson([t |-> t, s |-> s, f |-> f]))
 
@@ -106,7 +124,9 @@ Step == /\ k < Len(T.steps)
         /\ k' = k + 1 /\ ti' = ti
 End == /\ k = Len(T.steps)
        /\ PrintT("D " \o ToString(T.id))
-       /\ PrintT("Q " \o ToJson([t |-> T.id, q |-> Cardinality({s \in DOMAIN T.steps : Quiescent(T.steps[s])})]))
+       /\ PrintT("Q " \o ToJson([t |-> T.id, q |-> Cardinality({s \in DOMAIN T.steps : Quiescent(T.steps[s])}),
+                                   \* (C07 obligations still standing at the end: losses whose processes must show FATAL)
+                                   kn |-> Cardinality({x \in I \X I \X P : g.knew[x[1]][x[2]][x[3]]})]))
        /\ k' = k + 1 /\ UNCHANGED <<ti, g>>
 Next == Step \/ End
 Spec == Init /\ [][Next]_mvars
